@@ -1,10 +1,8 @@
 package driver
 
 import (
-	"bytes"
 	"context"
 	"fmt"
-	"io"
 	"math/rand"
 	"net/http"
 	"net/url"
@@ -97,7 +95,7 @@ func RunFuzz(reg Registry, rec *Recorder, g Group) {
 		}
 		body := fuzzBodies[r.Intn(len(fuzzBodies))]
 		req := &http.Request{Method: method, URL: &url.URL{Path: path, RawQuery: rawQuery}, Proto: "HTTP/1.1", ProtoMajor: 1, ProtoMinor: 1, Header: hdr, Host: "example.test",
-			Body: io.NopCloser(bytes.NewReader([]byte(body)))}
+			Body: newNetBody([]byte(body), "request")}
 		if r.Intn(20) == 0 {
 			req.Body = http.NoBody
 		}
